@@ -138,8 +138,56 @@ let sys_op (y: sys) (w: string list) : (sys * event list) option =
   | ["PUMPC"] -> Some (sys_pump y false [])
   | _ -> None
 
+(* ---- both ends calling and serving, each end's connection going DOWN (C19_Sys.bstep): header sys=2 ----
+   end A = the client's channel (user-owned, with the service table), end B = the channel RpcServer made (owned) *)
+let show_b_event (w: side) (e: event) : string option = match e with
+  | ESendRequest _ | ESendResponse _ -> None
+  | EDispatch (k, _, _, meth, req) ->
+      Some (Printf.sprintf "%s:%d:%s:%s" (match w with SA -> "adispatch" | SB -> "dispatch") (int_of_nat k) (text_of_bytes meth) (hex_or_dash req))
+  | _ -> show_event e
+let chan_outs (c: chan) = join (List.map (fun (i, c) -> Printf.sprintf "%s:r%dd%d" (string_of_z i) (if c.c_resp then 1 else 0) (if c.c_done then 1 else 0)) c.core.outs)
+let chan_pend (c: chan) = join (List.map string_of_int (List.sort compare (List.map (fun (k, _) -> int_of_nat k) c.core.pending)))
+let b_state (y: bsys) : string =
+  Printf.sprintf "next=%s outs=%s pend=%s b:next=%s outs=%s pend=%s" (string_of_z y.ea.core.next_id) (chan_outs y.ea) (chan_pend y.eb)
+    (string_of_z y.eb.core.next_id) (chan_outs y.eb) (chan_pend y.ea)
+let rec b_run (y: bsys) (ls: blabel list) : (bsys * (side * event) list) option =
+  match ls with
+  | [] -> Some (y, [])
+  | l :: r ->
+    (match bstep sys_wire sys_content y l with
+     | None -> None
+     | Some (y', st) ->
+        let ev = List.map (fun e -> (st.bs_side, e)) st.bs_events in
+        let extra = List.concat (List.map (function
+          | (w, EDispatch (k, _, _, meth, q)) when text_of_bytes meth = "Echo" -> [BDone (w, k, q)]
+          | _ -> []) ev) in
+        (match b_run y' (extra @ r) with
+         | None -> None
+         | Some (y'', ev') -> Some (y'', ev @ ev')))
+let rec b_pump (y: bsys) (w: side) (acc: (side * event) list) : bsys * (side * event) list =
+  if (match w with SA -> y.toa | SB -> y.tob) = [] then (y, acc)
+  else match b_run y [BDeliver w] with
+       | Some (y', ev) -> b_pump y' w (acc @ ev)
+       | None -> (y, acc)
+let b_op (y: bsys) (w: string list) : (bsys * (side * event) list) option =
+  let callm c r d meth req = mk_call (int_of_string c) r d meth (bytes_of_spec req) in
+  match w with
+  | ["CALL"; c; r; d; meth; req] -> b_run y (List.map (fun l -> BCall (SA, l)) (call_labels O (callm c r d meth req)))
+  | ["CALLB"; c; r; d; meth; req] -> b_run y (List.map (fun l -> BCall (SB, l)) (call_labels O (callm c r d meth req)))
+  | ["F"; t; c; r; d; meth; req] -> b_run y [BCall (SA, LFetch (nat_of_int (int_of_string t), callm c r d meth req))]
+  | ["R"; t] -> b_run y [BCall (SA, LRegister (nat_of_int (int_of_string t)))]
+  | ["S"; t] -> b_run y [BCall (SA, LSend (nat_of_int (int_of_string t)))]
+  | ["DONE"; k; d] -> b_run y [BDone (SB, nat_of_int (int_of_string k), bytes_of_spec d)]
+  | ["ADONE"; k; d] -> b_run y [BDone (SA, nat_of_int (int_of_string k), bytes_of_spec d)]
+  | ["PUMPS"] | ["PUMPB"] -> Some (b_pump y SB [])
+  | ["PUMPC"] | ["PUMPA"] -> Some (b_pump y SA [])
+  | ["DOWNA"] -> b_run y [BDown SA]
+  | ["DOWNB"] -> b_run y [BDown SB]
+  | _ -> None
+
 let () =
   let sy : sys option ref = ref None in
+  let sb : bsys option ref = ref None in
   let st = ref (cinit false None) in
   let leaked = ref [] in
   (try while true do
@@ -151,10 +199,31 @@ let () =
         let svc2 = List.mem "svc=2" rest in
         lax := List.mem "obs=1" rest;
         sy := (if List.mem "sys=1" rest then Some (sys_init svc_table) else None);
+        sb := (if List.mem "sys=2" rest then Some (binit false true svc_table svc_table) else None);
         (* svc=1: made and owned by RpcServer::onConnection; svc=2: user-owned channel with the service table *)
         st := cinit svc (if svc || svc2 then svc_table else None);
         leaked := [];
-        Printf.printf "case %s services=%s\n" id (if !sy <> None then "SYS" else if svc || svc2 then svc_name ^ ":Echo+Defer" else "NULL"); flush stdout
+        Printf.printf "case %s services=%s\n" id (if !sb <> None then "SYS2" else if !sy <> None then "SYS" else if svc || svc2 then svc_name ^ ":Echo+Defer" else "NULL"); flush stdout
+    | ["end"] when !sb <> None ->
+        let y = (match !sb with Some y -> y | None -> assert false) in
+        let fin = List.concat (List.map (fun (t, ts) -> match ts with
+            | TIdle -> [] | TFetched _ -> [BCall (SA, LRegister t); BCall (SA, LSend t)] | TRegistered _ -> [BCall (SA, LSend t)]) y.ea.core.threads) in
+        let y = (match b_run y fin with Some (y, _) -> y | None -> y) in
+        let dt (c: chan) = List.concat (List.map (fun (_, c) -> if c.c_done then [tag_label c.c_tag] else []) c.core.outs) in
+        Printf.printf "final dtor=%s leaked=- respleak=-\nend\n" (join (List.sort compare (dt y.ea @ dt y.eb))); flush stdout
+    | w when !sb <> None && wire_op w = None ->
+        let y = (match !sb with Some y -> y | None -> assert false) in
+        (match b_op y w with
+         | None -> Printf.printf "rejected ev=- %s\n" (b_state y)
+         | Some (y', ev) ->
+             sb := Some y';
+             let late = function (_, (EDelete _ | ELeak _ | EDrop _)) -> true | _ -> false in
+             let tag_of = function (_, (EDelete c | ELeak c | EDrop c)) -> int_of_nat c | _ -> 0 in
+             let first = List.filter (fun e -> not (late e)) ev in
+             let last = List.stable_sort (fun a b -> compare (tag_of a) (tag_of b)) (List.filter late ev) in
+             let shown = List.concat (List.map (fun (sd, e) -> match show_b_event sd e with Some x -> [x] | None -> []) (first @ last)) in
+             Printf.printf "ok ev=%s %s\n" (join shown) (b_state y'));
+        flush stdout
     | ["end"] when !sy <> None ->
         let y = (match !sy with Some y -> y | None -> assert false) in
         let fin = List.concat (List.map (fun (t, ts) -> match ts with
